@@ -68,38 +68,63 @@ Proof. rewrite !escape_flat. reflexivity. Qed.
 Lemma escape_attr_cons c x : escape_attr (c :: x) = esc_attr_char c ++ escape_attr x.
 Proof. rewrite !escape_attr_flat. reflexivity. Qed.
 
-(** text without the three special characters is left alone *)
-Definition plain_char (c : N) : bool := negb (c =? 38) && negb (c =? 60) && negb (c =? 62).
+(** * Text: escape(text, CR -> &#13;) as a character-wise map *)
+Definition esc_text_char (c : N) : pystr := if c =? 13 then s "&#13;" else esc_char c.
 
-Lemma escape_plain x : forallb plain_char x = true -> escape x = x.
+Lemma tcases (c : N) :
+  c = 38 \/ c = 62 \/ c = 60 \/ c = 13 \/ (c <> 38 /\ c <> 62 /\ c <> 60 /\ c <> 13).
+Proof. lia. Qed.
+
+Lemma escape_text_flat x : escape_text x = flat_map esc_text_char x.
 Proof.
-  rewrite escape_flat. induction x as [|c x IH]; simpl; [reflexivity|].
+  unfold escape_text. rewrite escape_flat. unfold replace1. rewrite flat_map_flat_map.
+  apply flat_map_ext'. intro c. unfold esc_text_char, esc_char.
+  destruct (tcases c) as [->|[->|[->|[->|(H1 & H2 & H3 & H4)]]]]; try reflexivity.
+  neqb. cbn [flat_map app]. neqb. reflexivity.
+Qed.
+
+Lemma escape_text_app a b : escape_text (a ++ b) = escape_text a ++ escape_text b.
+Proof. rewrite !escape_text_flat. apply flat_map_app. Qed.
+
+Lemma escape_text_cons c x : escape_text (c :: x) = esc_text_char c ++ escape_text x.
+Proof. rewrite !escape_text_flat. reflexivity. Qed.
+
+Lemma escape_text_nil : escape_text [] = [].
+Proof. reflexivity. Qed.
+
+(** text without the special characters is left alone *)
+Definition plain_char (c : N) : bool := negb (c =? 38) && negb (c =? 60) && negb (c =? 62) && negb (c =? 13).
+
+Lemma escape_text_plain x : forallb plain_char x = true -> escape_text x = x.
+Proof.
+  rewrite escape_text_flat. induction x as [|c x IH]; simpl; [reflexivity|].
   intro H. apply andb_true_iff in H as [Hc Hx]. rewrite (IH Hx).
-  unfold plain_char in Hc. unfold esc_char.
+  unfold plain_char in Hc. unfold esc_text_char, esc_char.
   destruct (c =? 38); [discriminate|]. destruct (c =? 60); [simpl in Hc; discriminate|].
-  destruct (c =? 62); [simpl in Hc; discriminate|]. reflexivity.
+  destruct (c =? 62); [simpl in Hc; discriminate|]. destruct (c =? 13); [simpl in Hc; discriminate|].
+  reflexivity.
 Qed.
 
 (** * The grammar of escaped text: plain characters and references *)
-Definition text_refs : list pystr := [s "amp"; s "lt"; s "gt"].
+Definition text_refs : list pystr := [s "amp"; s "lt"; s "gt"; s "#13"].
 Definition attr_refs : list pystr := [s "amp"; s "lt"; s "gt"; s "quot"; s "#9"; s "#10"; s "#13"].
 
 Inductive escaped (attr : bool) : pystr -> Prop :=
 | esc_nil : escaped attr []
-| esc_plain c l : c <> 38 -> c <> 60 -> c <> 62 ->
-                  (attr = true -> c <> 34 /\ c <> 9 /\ c <> 10 /\ c <> 13) ->
+| esc_plain c l : c <> 38 -> c <> 60 -> c <> 62 -> c <> 13 ->
+                  (attr = true -> c <> 34 /\ c <> 9 /\ c <> 10) ->
                   escaped attr l -> escaped attr (c :: l)
 | esc_ent e l : In e (if attr then attr_refs else text_refs) ->
                 escaped attr l -> escaped attr ([38] ++ e ++ [59] ++ l).
 
 Lemma escaped_no (attr : bool) l k : escaped attr l ->
-  (k = 60 \/ k = 62 \/ (attr = true /\ (k = 34 \/ k = 9 \/ k = 10 \/ k = 13))) -> ~ In k l.
+  (k = 60 \/ k = 62 \/ k = 13 \/ (attr = true /\ (k = 34 \/ k = 9 \/ k = 10))) -> ~ In k l.
 Proof.
-  intros H Hk. induction H as [|c l H1 H2 H3 H4 _ IH|e l He _ IH].
+  intros H Hk. induction H as [|c l H1 H2 H3 H4 H5 _ IH|e l He _ IH].
   - simpl; tauto.
   - intros [E|E]; [|exact (IH E)]. subst c.
-    destruct Hk as [->|[->|[A Hk]]]; [congruence|congruence|].
-    destruct (H4 A) as (Q1 & Q2 & Q3 & Q4). lia.
+    destruct Hk as [->|[->|[->|[A Hk]]]]; [congruence|congruence|congruence|].
+    destruct (H5 A) as (Q1 & Q2 & Q3). lia.
   - intro Hin. simpl in Hin. destruct Hin as [E|Hin]; [lia|].
     apply in_app_or in Hin as [Hin|Hin].
     + assert (He' : In e attr_refs).
@@ -109,16 +134,16 @@ Proof.
     + simpl in Hin. destruct Hin as [E|Hin]; [lia|exact (IH Hin)].
 Qed.
 
-Theorem escape_clean x : escaped false (escape x).
+Theorem escape_clean x : escaped false (escape_text x).
 Proof.
-  rewrite escape_flat. induction x as [|c x IH]; [constructor|].
-  cbn [flat_map]. unfold esc_char.
-  destruct (eqb_cases c) as [->|[->|[->|[->|(H1 & H2 & H3 & H4)]]]].
+  rewrite escape_text_flat. induction x as [|c x IH]; [constructor|].
+  cbn [flat_map]. unfold esc_text_char, esc_char.
+  destruct (tcases c) as [->|[->|[->|[->|(H1 & H2 & H3 & H4)]]]].
   - refine (esc_ent false (s "amp") _ _ IH). simpl; auto.
   - refine (esc_ent false (s "gt") _ _ IH). simpl; auto.
   - refine (esc_ent false (s "lt") _ _ IH). simpl; auto.
-  - refine (esc_plain false 34 _ _ _ _ _ IH); [lia|lia|lia|discriminate].
-  - neqb. refine (esc_plain false c _ H1 H3 H2 _ IH). discriminate.
+  - refine (esc_ent false (s "#13") _ _ IH). simpl; auto.
+  - neqb. refine (esc_plain false c _ H1 H3 H2 H4 _ IH). discriminate.
 Qed.
 
 Theorem escape_attr_clean x : escaped true (escape_attr x).
@@ -133,19 +158,24 @@ Proof.
   - refine (esc_ent true (s "#9") _ _ IH). simpl; auto 10.
   - refine (esc_ent true (s "#10") _ _ IH). simpl; auto 10.
   - refine (esc_ent true (s "#13") _ _ IH). simpl; auto 10.
-  - neqb. refine (esc_plain true c _ H1 H3 H2 _ IH). auto.
+  - neqb. refine (esc_plain true c _ H1 H3 H2 H7 _ IH). auto.
 Qed.
 
-Corollary escape_no_lt x : ~ In 60 (escape x).
+Corollary escape_no_lt x : ~ In 60 (escape_text x).
 Proof. apply (escaped_no false); [apply escape_clean | auto]. Qed.
-Corollary escape_no_gt x : ~ In 62 (escape x).
+Corollary escape_no_gt x : ~ In 62 (escape_text x).
+Proof. apply (escaped_no false); [apply escape_clean | auto]. Qed.
+Corollary escape_no_cr x : ~ In 13 (escape_text x).
 Proof. apply (escaped_no false); [apply escape_clean | auto]. Qed.
 Corollary escape_attr_no_lt x : ~ In 60 (escape_attr x).
 Proof. apply (escaped_no true); [apply escape_attr_clean | auto]. Qed.
 Corollary escape_attr_no_quote x : ~ In 34 (escape_attr x).
-Proof. apply (escaped_no true); [apply escape_attr_clean | auto]. Qed.
+Proof. apply (escaped_no true); [apply escape_attr_clean | auto 10]. Qed.
 Corollary escape_attr_no_ws x k : k = 9 \/ k = 10 \/ k = 13 -> ~ In k (escape_attr x).
-Proof. intro H. apply (escaped_no true); [apply escape_attr_clean | right; right; tauto]. Qed.
+Proof.
+  intro H. apply (escaped_no true); [apply escape_attr_clean|].
+  destruct H as [->|[->| ->]]; auto 10.
+Qed.
 
 (** * Decoding escaped text with the parser's text reader *)
 
@@ -154,31 +184,31 @@ Proof. reflexivity. Qed.
 
 (** the head of escaped text is never a greater-than sign *)
 Lemma escape_head_not_gt x rest a l :
-  escape x ++ rest = a :: l -> (rest = [] \/ exists r, rest = 60 :: r) -> a <> 62.
+  escape_text x ++ rest = a :: l -> (rest = [] \/ exists r, rest = 60 :: r) -> a <> 62.
 Proof.
   intros E Hr. destruct x as [|c x].
   - simpl in E. destruct Hr as [->|[r ->]]; [discriminate|]. inversion E; lia.
-  - rewrite escape_cons in E. unfold esc_char in E.
-    destruct (eqb_cases c) as [->|[->|[->|[->|(H1 & H2 & H3 & H4)]]]];
+  - rewrite escape_text_cons in E. unfold esc_text_char, esc_char in E.
+    destruct (tcases c) as [->|[->|[->|[->|(H1 & H2 & H3 & H4)]]]];
       try (cbn in E; inversion E; lia).
     revert E. neqb. cbn [app]. intro E. inversion E; subst. exact H2.
 Qed.
 
 Lemma no_cdata_close c x rest :
   (rest = [] \/ exists r, rest = 60 :: r) ->
-  starts_with cdata_close (c :: escape x ++ rest) = false.
+  starts_with cdata_close (c :: escape_text x ++ rest) = false.
 Proof.
   intro Hr. change cdata_close with [93; 93; 62]. rewrite starts_with_cons.
   destruct (93 =? c) eqn:Ec; [|reflexivity]. cbn [andb].
-  destruct (escape x ++ rest) as [|a l] eqn:E; [reflexivity|]. rewrite starts_with_cons.
+  destruct (escape_text x ++ rest) as [|a l] eqn:E; [reflexivity|]. rewrite starts_with_cons.
   destruct (93 =? a) eqn:Ea; [|reflexivity]. cbn [andb].
   destruct l as [|b l']; [reflexivity|]. rewrite starts_with_cons.
   destruct (62 =? b) eqn:Eb; [|reflexivity]. exfalso.
   apply N.eqb_eq in Ea, Eb. subst a b.
   destruct x as [|c1 x].
   - simpl in E. destruct Hr as [->|[r ->]]; [discriminate|]. inversion E.
-  - rewrite escape_cons in E. unfold esc_char in E.
-    destruct (eqb_cases c1) as [->|[->|[->|[->|(H1 & H2 & H3 & H4)]]]];
+  - rewrite escape_text_cons in E. unfold esc_text_char, esc_char in E.
+    destruct (tcases c1) as [->|[->|[->|[->|(H1 & H2 & H3 & H4)]]]];
       try (cbn in E; inversion E; fail).
     revert E. neqb. cbn [app]. intro E. inversion E as [[E1 E2]].
     apply escape_head_not_gt in E2; [congruence|exact Hr].
@@ -191,6 +221,8 @@ Lemma ptext_gt l : ptext 0 TNorm (s "&gt;" ++ l) = cons_res 62 (ptext 0 TNorm l)
 Proof. reflexivity. Qed.
 Lemma ptext_lt l : ptext 0 TNorm (s "&lt;" ++ l) = cons_res 60 (ptext 0 TNorm l).
 Proof. reflexivity. Qed.
+Lemma ptext_cr l : ptext 0 TNorm (s "&#13;" ++ l) = cons_res 13 (ptext 0 TNorm l).
+Proof. reflexivity. Qed.
 
 Lemma ptext_plain c l :
   c <> 38 -> c <> 60 -> starts_with cdata_close (c :: l) = false ->
@@ -201,30 +233,29 @@ Proof. intros H1 H2 H3. cbn [ptext]. neqb. rewrite H3. reflexivity. Qed.
     less-than sign that does not open a CDATA section *)
 Lemma ptext_escape x rest :
   (rest = [] \/ exists r, rest = 60 :: r /\ starts_with cdata_open_tail r = false) ->
-  ptext 0 TNorm (escape x ++ rest) = Some (x, rest).
+  ptext 0 TNorm (escape_text x ++ rest) = Some (x, rest).
 Proof.
   intro Hr.
   assert (Hr' : rest = [] \/ exists r, rest = 60 :: r) by (destruct Hr as [->|(r & -> & _)]; eauto).
   induction x as [|c x IH].
-  - cbn [escape replace1 flat_map app]. destruct Hr as [->|(r & -> & Hc)]; [reflexivity|].
+  - cbn [escape_text escape replace1 flat_map app]. destruct Hr as [->|(r & -> & Hc)]; [reflexivity|].
     cbn [ptext]. change (60 =? 60) with true. cbv iota. rewrite Hc. reflexivity.
-  - rewrite escape_cons. unfold esc_char.
-    destruct (eqb_cases c) as [->|[->|[->|[->|(H1 & H2 & H3 & H4)]]]].
-    + change (38 =? 38) with true. cbv iota. rewrite <- app_assoc, ptext_amp, IH. reflexivity.
-    + change (62 =? 38) with false. change (62 =? 62) with true. cbv iota.
+  - rewrite escape_text_cons. unfold esc_text_char, esc_char.
+    destruct (tcases c) as [->|[->|[->|[->|(H1 & H2 & H3 & H4)]]]].
+    + change (38 =? 13) with false. change (38 =? 38) with true. cbv iota.
+      rewrite <- app_assoc, ptext_amp, IH. reflexivity.
+    + change (62 =? 13) with false. change (62 =? 38) with false. change (62 =? 62) with true. cbv iota.
       rewrite <- app_assoc, ptext_gt, IH. reflexivity.
-    + change (60 =? 38) with false. change (60 =? 62) with false. change (60 =? 60) with true.
-      cbv iota. rewrite <- app_assoc, ptext_lt, IH. reflexivity.
-    + change (34 =? 38) with false. change (34 =? 62) with false. change (34 =? 60) with false.
-      cbv iota. cbn [app].
-      rewrite ptext_plain, IH; [reflexivity|lia|lia|apply no_cdata_close; exact Hr'].
+    + change (60 =? 13) with false. change (60 =? 38) with false. change (60 =? 62) with false.
+      change (60 =? 60) with true. cbv iota. rewrite <- app_assoc, ptext_lt, IH. reflexivity.
+    + change (13 =? 13) with true. cbv iota. rewrite <- app_assoc, ptext_cr, IH. reflexivity.
     + neqb. cbn [app].
       rewrite ptext_plain, IH; [reflexivity|exact H1|exact H3|apply no_cdata_close; exact Hr'].
 Qed.
 
-Theorem escape_decode x : xtext_decode (escape x) = Some x.
+Theorem escape_decode x : xtext_decode (escape_text x) = Some x.
 Proof.
-  unfold xtext_decode. rewrite <- (app_nil_r (escape x)).
+  unfold xtext_decode. rewrite <- (app_nil_r (escape_text x)).
   rewrite ptext_escape by (left; reflexivity). reflexivity.
 Qed.
 
